@@ -55,6 +55,7 @@ Theorems (→ meaning for the property)
      extended_limit_counts_the_nul    a text of exactly 1 MiB fails both predicates (record limit counts the NUL), classic still carries it
      zero_size_record_closes          size-0 record refused in both stream styles
      vanished_sender_is_closed        a sender that closes right after writing: processed, nothing written to it, closed
+     granted_viewer_delivers          a viewer that was view-only at its first update and is granted input later delivers its text (SupportedMessages lists ClientCutText unconditionally)
 
 Partial (`_partial`): the unrestricted statement "every text of 0..1 MiB makes the extended round
 trip" is false of the code in two distinct ways — (i) the record limit counts the NUL, so a text of
